@@ -4,9 +4,11 @@ as interpreted instruction lists equals the hand-written model; slices of `GetMa
 `passes` / `limit`.
 -/
 import Pandora.Model.C15Walk
+import Pandora.Spec.C15
 
 namespace Pandora.Proofs.C15
 open Pandora.Model.C15
+open Pandora.Spec.C15 (feedCount)
 
 /-! ### the segment loop of `GetMapValue` -/
 
@@ -195,6 +197,31 @@ theorem feed_spec {α} (ring : List α) (hne : ring.length ≠ 0) (p l n : Nat) 
   refine ⟨m, hm, ?_, by simpa using h1, by simpa using h2⟩
   unfold feed
   simp only [beq_iff_eq, hne, if_false, he, List.range_eq_range']
+
+theorem length_deliveries {α} (ring : List α) (hne : ring.length ≠ 0) (m : Nat) :
+    ((List.range m).filterMap (deliver ring)).length = m := by
+  induction m with
+  | zero => rfl
+  | succ k ih =>
+    obtain ⟨a, _, hd⟩ := deliver_nonempty ring hne k
+    rw [List.range_succ, List.filterMap_append, List.length_append, ih]
+    simp [hd]
+
+theorem feed_length {α} (ring : List α) (hne : ring.length ≠ 0) (p l n : Nat) :
+    (feed ring p l n).length = feedCount ring.length p l n := by
+  obtain ⟨m, hm, he, h1, h2⟩ := feed_spec ring hne p l n
+  have hlen : (feed ring p l n).length = m := by rw [he]; exact length_deliveries ring hne m
+  rw [hlen]
+  have hpos : 0 < ring.length := by omega
+  have hstop := fun j => feedStop_iff p l ring.length j hpos
+  unfold feedCount
+  generalize hB : p * ring.length = B at hstop
+  have hm1 : m < n → ((p ≠ 0 ∧ B ≤ m) ∨ (l ≠ 0 ∧ l ≤ m)) := fun h => (hstop m).mp (h1 h)
+  have hm2 : 0 < m → ¬ ((p ≠ 0 ∧ B ≤ m - 1) ∨ (l ≠ 0 ∧ l ≤ m - 1)) := fun h hh => by
+    have := h2 (m - 1) (by omega)
+    rw [(hstop (m - 1)).mpr hh] at this
+    cases this
+  by_cases hp : p = 0 <;> by_cases hl : l = 0 <;> simp [hp, hl] <;> omega
 
 /-! ### one mapping entry of `Preprocessor.Process` -/
 
